@@ -134,3 +134,39 @@ Print Assumptions C17_max_costs_fixed_panic_iff.
 Theorem C17_fixed_costs_agree_certified : fixed_costs_agree_certified_stmt.
 Proof. exact fixed_costs_agree_certified. Qed.
 Print Assumptions C17_fixed_costs_agree_certified.
+
+(* the public QUERIES on top of the cost tables (C17/QueryModel.v).  (1) A min/max_sentence_cost query about one rule computes
+   and overflow-checks the table of ALL rules: it answers the true value or panics because SOME rule's true finite cost is
+   >= 65535 — the asked rule's own (the refusal the u16 result forces) or an unrelated one's (known finding
+   C17-overflow-unrelated-rule; refuted for the mirror with a certified witness).  (2) min_sentences_below recurses on the native
+   stack, one frame per rule along a chain of distinct rules: the [active] guard bounds the depth by rules_len()
+   (C17_min_sentences_depth_le_rules, attained: _bound_tight), and for every frame budget a chain grammar exhausts it
+   (C17_min_sentences_depth_unbounded_refuted; known finding C17-min_sentences-recursion-depth). *)
+From GV Require Import C17.QueryModel C17.QuerySpec C17.QueryProofs.
+Theorem C17_cost_query_exact_or_foreign_overflow : cost_query_exact_or_foreign_overflow_stmt.
+Proof. exact cost_query_exact_or_foreign_overflow. Qed.
+Print Assumptions C17_cost_query_exact_or_foreign_overflow.
+
+Theorem C17_cost_query_panics_only_if_own_or_foreign : cost_query_panics_only_if_own_or_foreign_stmt.
+Proof. exact cost_query_panics_only_if_own_or_foreign. Qed.
+Print Assumptions C17_cost_query_panics_only_if_own_or_foreign.
+
+Theorem C17_cost_panic_unrelated_rule_refuted : cost_panic_unrelated_rule_refuted_stmt.
+Proof. exact cost_panic_unrelated_rule_refuted. Qed.
+Print Assumptions C17_cost_panic_unrelated_rule_refuted.
+
+Theorem C17_min_sentences_depth_le_rules : min_sentences_depth_le_rules_stmt.
+Proof. exact min_sentences_depth_le_rules. Qed.
+Print Assumptions C17_min_sentences_depth_le_rules.
+
+Theorem C17_min_sentences_chain_threshold : min_sentences_chain_threshold_stmt.
+Proof. exact min_sentences_chain_threshold. Qed.
+Print Assumptions C17_min_sentences_chain_threshold.
+
+Theorem C17_min_sentences_depth_unbounded_refuted : min_sentences_depth_unbounded_refuted_stmt.
+Proof. exact min_sentences_depth_unbounded_refuted. Qed.
+Print Assumptions C17_min_sentences_depth_unbounded_refuted.
+
+Theorem C17_min_sentences_depth_bound_tight : min_sentences_depth_bound_tight_stmt.
+Proof. exact min_sentences_depth_bound_tight. Qed.
+Print Assumptions C17_min_sentences_depth_bound_tight.
